@@ -213,7 +213,7 @@ def mk_pipeline_quiet(name, twin=None, params=None, debug_logging=False):
             lg.setLevel(old_level)
             lg.propagate = True
             logging.disable(old_disable)
-        if params is M.COUPLED:
+        if params is M.COUPLED or '~' in name:
             ctx.claim('coupled-pairs-present', any(g.non_covalently_coupled_groups for g in on.conformations[on.conformation_names[0]].groups))
         for cname in off.conformation_names:
             go, gn = off.conformations[cname].groups, on.conformations[cname].groups
@@ -225,6 +225,18 @@ def mk_pipeline_quiet(name, twin=None, params=None, debug_logging=False):
                     db = sorted(((d.label, d.value) for d in b.determinants[kind]), key=lambda x: (x[0], float(x[1]) if not hasattr(x[1], 'e') else 0))
                     ctx.claim('determinants-undisturbed', len(da) == len(db) and all(x[0] == y[0] and bool(eq(x[1], y[1])) for x, y in zip(da, db)),
                               detail='%s %s: %r vs %r' % (a.label, kind, da, db))
+            # the written determinant section: a listed group's row carries the star exactly when the group has a coupled partner
+            import propka.output as O
+            text = O.get_determinant_section(on, cname, on.version.parameters)
+            listed = [g for g in gn if g.use_in_calculations()]      # backbone groups share their residue's label and have no rows
+            labels = [g.label for g in listed]
+            for g in listed:
+                if labels.count(g.label) != 1:
+                    continue
+                first_rows = [ln for ln in text.split('\n') if ln.startswith(g.label + ' ') and len(ln) > 40 and ln[10:16].strip()]
+                if first_rows:
+                    ctx.claim('row-starred-iff-coupled', (first_rows[0][16] == '*') == (len(g.non_covalently_coupled_groups) > 0),
+                              detail='%s in %s: row %r, partners %r' % (g.label, cname, first_rows[0][:24], [x.label for x in g.non_covalently_coupled_groups]))
             for g in gn:
                 for h in g.non_covalently_coupled_groups:
                     ctx.claim('coupling-symmetric', any(x is g for x in h.non_covalently_coupled_groups), detail='%s lists %s but not the other way round' % (g.label, h.label))
@@ -266,8 +278,9 @@ def obligations(tier):
                               bounds='micro-structure %s%s, Nmin/Nmax lowered to 6/30 (pairs reach the swap), under a symbolic grid shift; coupling search switched off vs on' % (name, ' with an insertion-coded twin residue' if twin else ''),
                               claim_doc='every pKa and determinant identical with and without the coupling search; coupling symmetric', max_paths=5000, wall_s=170 if tier == 'quick' else 1200))
     from . import micro as M
-    for name, dbg in ([('pep8', True), ('pair_ASP_ARG', False), ('complex_MTX2', False)] if tier == 'quick' else [('pep8', False), ('pep8', True), ('pair_ASP_ARG', False), ('pair_ASP_ARG', True), ('pair_ASP_ASP', True), ('pair_LYS_ASP', True), ('pair_GLU_ARG_TYR', False), ('complex_MTX2', False), ('complex_MTX2', True)]):
-        obs.append(Obligation('O4-pipeline-undisturbed[%s,coupled%s]' % (name, ',DEBUG logging' if dbg else ''), mk_pipeline_quiet(name, None, M.COUPLED, dbg),
+    NT = 'pair_ASP_ASP~-N-CA-C-O-CB-CG-CD1-CD2@24B'     # chain B starts at ASP 25: that group is penalised through its own N+ and still coupled to ASP 25 A
+    for name, dbg in ([('pep8', True), ('pair_ASP_ARG', False), ('complex_MTX2', False), (NT, False)] if tier == 'quick' else [('pep8', False), ('pep8', True), ('pair_ASP_ARG', False), ('pair_ASP_ARG', True), ('pair_ASP_ASP', True), ('pair_LYS_ASP', True), ('pair_GLU_ARG_TYR', False), ('complex_MTX2', False), ('complex_MTX2', True), (NT, False)]):
+        obs.append(Obligation('O4-pipeline-undisturbed[%s,%s%s]' % (name, 'buried' if name == NT else 'coupled', ',DEBUG logging' if dbg else ''), mk_pipeline_quiet(name, None, M.BURIED if name == NT else M.COUPLED, dbg),
                               code=[CGm + 'identify_non_covalently_coupled_groups', CGm + 'print_out_swaps', CGm + 'print_system'] + code + ['propka/conformation_container.py:ConformationContainer.find_non_covalently_coupled_groups',
                                                                                                                                        'propka/run.py:single (whole pipeline)'],
                               bounds='micro-structure %s, burial on and coupling thresholds relaxed (coupled pairs present)%s, under a symbolic grid shift; coupling search switched off vs on; no -d' % (name, ', propka logger at DEBUG' if dbg else ''),
